@@ -6,7 +6,7 @@ Lck == {"name"}
 P0 == [name |-> "a", description |-> "absent", aliases |-> "a"]
 Obj(v, kind, m, hm) == [v |-> v, kind |-> kind, created |-> 5000, modified |-> m, hasmod |-> hm, revoked |-> FALSE, props |-> P0]
 MCRoots == { Obj("2.1", "obj", 5000, TRUE), Obj("2.0", "obj", 5000, TRUE), Obj("2.1", "dict", 5300, TRUE), Obj("2.0", "dict", 5300, TRUE),
-             Obj("2.1", "dict", 5000, FALSE), Obj("2.0", "dict", 5000, FALSE), Obj("2.1", "sco5", 5300, TRUE),
+             Obj("2.1", "dict", 5000, FALSE), Obj("2.0", "dict", 5000, FALSE), Obj("2.1", "sco5", 5300, TRUE), Obj("2.1", "sco4", 5300, TRUE),
              Obj("2.1", "unversionable", 5000, TRUE), Obj("2.0", "dict_nocreated", 5000, TRUE) }
 M1000000 == 0 - 1000000
 M1000 == 0 - 1000
@@ -25,8 +25,8 @@ FewUser == {0, 1700}
 \* S2: the complete one-step case table over a space of representative objects
 MSpace == {5000, 5300, 5999, 6000}
 OSpace == { [v |-> v, kind |-> k, created |-> 5000, modified |-> m, hasmod |-> hm, revoked |-> rv, props |-> P0] :
-            v \in {"2.0", "2.1"}, k \in {"obj", "dict", "sco5", "unversionable", "dict_nocreated"}, m \in MSpace, hm \in BOOLEAN, rv \in BOOLEAN }
-Legit(o) == /\ (o.kind = "sco5" => o.v = "2.1")
+            v \in {"2.0", "2.1"}, k \in {"obj", "dict", "sco5", "sco4", "unversionable", "dict_nocreated"}, m \in MSpace, hm \in BOOLEAN, rv \in BOOLEAN }
+Legit(o) == /\ (o.kind \in {"sco5", "sco4"} => o.v = "2.1")
             /\ (~o.hasmod => o.kind \in {"dict"} /\ o.modified = o.created /\ ~o.revoked)
             /\ (o.kind = "obj" /\ o.v = "2.0" => o.modified % 1000 = 0)
             /\ (o.kind \in {"unversionable", "dict_nocreated"} => o.modified = 5000 /\ ~o.revoked)
